@@ -740,6 +740,9 @@ def declare_concurrency_oracles(reg):
     for pid in ("C10", "C03", "C15"):
         reg.properties.setdefault(pid, {}).setdefault("bounded", []).append(
             {"name": "uid-command-during-expunge", "module": "harness.e2e", "func": "ConcurrentExpunge"})
+    for pid in ("C06", "C10"):
+        reg.properties.setdefault(pid, {}).setdefault("bounded", []).append(
+            {"name": "command-dequeued-at-shutdown", "module": "harness.e2e", "func": "DequeuedAtShutdown"})
 
 
 def declare_rename_inbox(reg):
